@@ -1,4 +1,5 @@
 import inspect
+import threading
 from typing import Callable, Optional, Dict, Any, TypeVar, List
 from .datastructures import ImmutableDict
 from .functional import represent, multi, distinct_add
@@ -18,6 +19,7 @@ class TypeRegistry:
                  ):
         self._registry = []
         self._cache = {}
+        self._lock = threading.Lock()
 
         self.name = name
         self.cache = cache
@@ -75,12 +77,15 @@ class TypeRegistry:
         def decorator(f):
             if not self.validator(f):
                 raise TypeError(f'Invalid register target: {f}, must pass <{self.validator}> validate')
-            self._registry.insert(0, (detector, f, priority))
-            # stable sort: equal priorities keep 'most recent first'; must also run for
-            # priority 0, which otherwise stays in front of higher-priority entries
-            self._registry.sort(key=lambda v: -v[2])
-            # a later registration must take effect for types that were already resolved
-            self._cache.clear()
+            with self._lock:
+                # publish a new list in one step: resolve() of another thread iterates the list, and
+                # list.sort() empties the list it sorts for as long as the sort runs
+                # stable sort: equal priorities keep 'most recent first'; must also run for
+                # priority 0, which otherwise stays in front of higher-priority entries
+                self._registry = sorted([(detector, f, priority), *self._registry], key=lambda v: -v[2])
+                # a later registration must take effect for types that were already resolved:
+                # a new dict, so that a lookup that started before cannot write a replaced entry back
+                self._cache = {}
             return f
 
         # before runtime, type will be compiled and applied
@@ -94,16 +99,18 @@ class TypeRegistry:
         if self.shortcut and hasattr(t, self.shortcut) and self.validator(getattr(t, self.shortcut)):
             # this type already got a callable transformer, do not resolve then
             return getattr(t, self.shortcut)
+        # take the cache before the registry: a registration made meanwhile replaces both,
+        # and what this lookup finds then goes into the replaced (orphaned) cache only
+        cache = self._cache
         if self.cache:
-            # one read: a registration made by another thread may clear the cache at any moment
-            cached = self._cache.get(t)
+            cached = cache.get(t)
             if cached is not None:
                 return cached
         for detector, trans, priority in self._registry:
             try:
                 if detector(t):
                     if self.cache:
-                        self._cache[t] = trans
+                        cache[t] = trans
                     return trans
             except (TypeError, ValueError):
                 continue
